@@ -288,6 +288,55 @@ static void op_load(const char* hex, int mode, long k, size_t cap) {
   free(s.p); free(incopy);
 }
 
+/* LN <hexprefix|-> <k>: every buffer prefix ++ suffix with suffix ranging over all 256^k byte strings (k <= 2), each in an exactly-sized heap
+   block: load, then the client operations of C01 on a decoded tree (size, serialize exact / one short, describe, copy, release); any leak aborts.
+   ->  <fnv digest of the outcome texts> ok=<n> err=<n>     outcome text: "OK <tree> <read>" | "NODATA" | "ERR <code> <pos>" */
+static void op_ln(const char* hexprefix, int k) {
+  unsigned char pre[64]; size_t pn = hexprefix[0] == '-' ? 0 : hex_decode(hexprefix, pre, sizeof pre - 2);
+  uint64_t h = 1469598103934665603ULL; long nok = 0, nerr = 0;
+  long total = k == 0 ? 1 : k == 1 ? 256 : 65536;
+  FILE* dn = fopen("/dev/null", "w");
+  for (long v = 0; v < total; v++) {
+    size_t n = pn + (size_t)k;
+    unsigned char tmp[66]; memcpy(tmp, pre, pn);
+    if (k == 1) tmp[pn] = (unsigned char)v; else if (k == 2) { tmp[pn] = (unsigned char)(v >> 8); tmp[pn + 1] = (unsigned char)v; }
+    struct xbuf in = exact_copy(tmp, n);
+    struct cbor_load_result res; memset(&res, 0xAB, sizeof res);
+    long live0 = h_alloc_live();
+    cbor_item_t* item = cbor_load(in.p, in.n, &res);
+    memset(in.base, 0xDD, in.n ? in.n : 1);
+    free_exact(in);
+    struct sb s = {0};
+    if (!item) {
+      if (res.error.code == CBOR_ERR_NODATA) sb_printf(&s, "NODATA"); else sb_printf(&s, "ERR %s %zu", err_name(res.error.code), res.error.position);
+      nerr++;
+    } else {
+      sb_printf(&s, "OK "); print_item(&s, item, NULL, 0); sb_printf(&s, " %zu", res.read); nok++;
+      size_t sz = cbor_serialized_size(item);
+      if (sz > 0 && sz < 4096) {
+        unsigned char* ob = malloc(sz); size_t w = cbor_serialize(item, ob, sz);
+        if (w != sz) { printf("\nHARNESS-ABORT serialize returned %zu for size %zu\n", w, sz); fflush(stdout); abort(); }
+        free(ob);
+        unsigned char* ob2 = malloc(sz > 1 ? sz - 1 : 1);
+        if (cbor_serialize(item, ob2, sz - 1) != 0) { printf("\nHARNESS-ABORT short serialize succeeded\n"); fflush(stdout); abort(); }
+        free(ob2);
+      }
+#if CBOR_PRETTY_PRINTER
+      if (dn) cbor_describe(item, dn);
+#endif
+      cbor_item_t* cp = cbor_copy(item);
+      if (cp) cbor_decref(&cp);
+      cbor_decref(&item);
+    }
+    if (h_alloc_live() != live0) { printf("\nHARNESS-ABORT %ld block(s) left after input ", h_alloc_live() - live0); print_hex(tmp, n); printf("\n"); fflush(stdout); abort(); }
+    for (size_t i = 0; i < s.len; i++) h = (h ^ (unsigned char)s.p[i]) * 1099511628211ULL;
+    h = (h ^ 10) * 1099511628211ULL;
+    free(s.p);
+  }
+  if (dn) fclose(dn);
+  printf("%016" PRIx64 " ok=%ld err=%ld\n", h, nok, nerr);
+}
+
 /* SER <tree> <n>  ->  <ret> <buffer hex (n bytes, 0xEE prefill)> size=<cbor_serialized_size> */
 static void op_ser(const char* tree, size_t n) {
   cbor_item_t* it = parse_tree(tree);
@@ -433,5 +482,6 @@ int tree_op(int argc, char** w) {
   if (!strcmp(w[0], "SERA") && argc >= 2) { op_sera(w[1], argc > 2 ? atoi(w[2]) : 0, argc > 3 ? atol(w[3]) : 0); return 1; }
   if (!strcmp(w[0], "ROUND") && argc == 2) { op_round(w[1]); return 1; }
   if (!strcmp(w[0], "RO") && argc == 2) { op_ro(w[1]); return 1; }
+  if (!strcmp(w[0], "LN") && argc == 3) { op_ln(w[1], atoi(w[2])); return 1; }
   return hist_op(argc, w);
 }
